@@ -136,9 +136,10 @@ Proof.
          (JObj [(b_x, JStr b_braces)]).
   vm_compute. auto.
 Qed.
-(* query($x: [Int!] = null)   {}  -- a coercible request is rejected *)
-Lemma refuted_default_null_wrap_proof :
-  exists S vds vars, accepts go_quirks S no_reparse vds vars = false /\ coercible_all std S vds vars = true.
+(* query($x: [Int!] = null)   {}  -- used to be rejected (the null default was wrapped to [null]);
+   repaired in /repo: the request is accepted, as the specification says *)
+Example default_null_list_not_wrapped :
+  exists S vds vars, pipeline go_quirks S no_reparse vds vars = PDone (JObj [(b_x, JNull)]) None /\ coercible_all std S vds vars = true.
 Proof.
   exists (mk_schema []), [mk_var b_x (TList (TNonNull (TNamed n_Int))) (Some VNull)], (JObj []).
   vm_compute. auto.
@@ -162,7 +163,7 @@ Theorem accept_iff_coercible_partial_proof : forall S reparse vds ms,
     no_upload_ref S vds = true ->             (* excludes upload-exempt-from-non-null and remap-name-collision-upload *)
     defaults_nullable_only S = true ->        (* excludes field-null- / list-element-null-uses-field-default *)
     forallb (var_default_ok go_quirks S weak_strict) vds = true ->
-                                              (* variable defaults, as extracted, are valid: excludes variable-default-null-list-wrapped *)
+                                              (* variable defaults, as extracted, are valid for their type *)
     inject_inert go_quirks S reparse vds ms ->  (* default injection changes nothing: excludes the three inject-defaults-* causes *)
     (accepts go_quirks S reparse vds (JObj ms) = true <-> coercible_all weak S vds (JObj ms) = true).
 Proof.
